@@ -513,9 +513,8 @@ namespace xsimd
             }
             batch_type z = batch_type(1.) - ex * detail::erf_kernel<batch_type>::erfc3(x);
             z = select(self < batch_type(0.), -z, z);
-#ifndef XSIMD_NO_INFINITIES
-            z = select(xsimd::isinf(self), sign(self), z);
-#endif
+            // erf(|x| >= 6) rounds to +-1; beyond, the rational kernel overflows to inf / inf
+            z = select(x >= batch_type(6.), sign(self), z);
             return select(test2, r1, z);
         }
 
@@ -574,9 +573,8 @@ namespace xsimd
             }
             batch_type z = ex * detail::erf_kernel<batch_type>::erfc3(x);
             r1 = select(test2, r1, z);
-#ifndef XSIMD_NO_INFINITIES
-            r1 = select(x == constants::infinity<batch_type>(), batch_type(0.), r1);
-#endif
+            // erfc(x >= 28) underflows to 0; beyond, the rational kernel overflows to inf / inf
+            r1 = select(x >= batch_type(28.), batch_type(0.), r1);
             return select(test0, batch_type(2.) - r1, r1);
         }
 
